@@ -166,6 +166,13 @@ pub fn run(a: &Args) {
             }
         }
         let key = w.key.clone();
+        if a.has("dump") {
+            // debugging aid: which pack holds which blobs, and what the index files list
+            let rk = scn::repo_key(&key);
+            let abs = crate::abs::RepoAbs::from_map(&base, &rk);
+            let packs: Vec<Value> = abs.packs.iter().map(|(id, p)| json!({"p": id.to_hex().as_str()[..8], "blobs": p.hdr.as_ref().map(|h| h.iter().map(|b| format!("{}{}", if b.tree {"t"} else {"d"}, &b.id.to_hex().as_str()[..8])).collect::<Vec<_>>())})).collect();
+            out.rec(&json!({"kind":"dump","packs":packs}));
+        }
         let (v0, m0, r0) = verdict(&base, &key, &expected);
         out.rec(&json!({"kind":"damage","id":format!("repo{pi}-undamaged"),"repo":pi,"tpe":"none","file":"","fault":"none",
                         "verdict":v0,"msg":m0,"rest":r0}));
